@@ -384,6 +384,7 @@ theorem exec_rel (m : M) (sa : SAct) (g : Bool) : ExecR m g (exec m sa g) := by
       · exact hm1 _
     simp only [exec]
     cases form with
+    | junk isClass => exact hm1 _
     | inst => exact hstart
     | cls =>
       simp only
@@ -428,10 +429,42 @@ inductive Step (β : Beh) (m : M) : M → Prop
   | fFinish (fr : Frame) (st : List Frame) (hp : m.pend = none) (hs : m.stack = fr :: st) (hc : fr.cur = none)
       (hr : fr.rest = []) : Step β m (finish m fr st fr.halt)
   | fInvoke (fr : Frame) (st : List Frame) (e : Entry) (rest : List Entry) (live : Bool) (acts : List (SAct × Bool)) (ret : Ret)
-      (h : Bool) (hp : m.pend = none) (hs : m.stack = fr :: st) (hc : fr.cur = none) (hr : fr.rest = e :: rest)
-      (hlive : live = true → ∀ p ∈ m.gone, p.1 ≠ e.eid) :
-      Step β m { m with log := m.log ++ [.call fr.fid fr.src e live],
+      (h : Bool) (srcs' : Nat → Src) (hp : m.pend = none) (hs : m.stack = fr :: st) (hc : fr.cur = none) (hr : fr.rest = e :: rest)
+      (hsrc : srcs' = m.srcs ∨ srcs' = updSrc m.srcs fr.src (rmEidAll (m.srcs fr.src) e.eid))
+      (hlive : live = true → (∀ p ∈ m.gone, p.1 ≠ e.eid) ∧
+          (m.v.oncePre = true → e.once = true →
+            srcs' = updSrc m.srcs fr.src (rmEidAll (m.srcs fr.src) e.eid) ∧
+            ∃ k, ((m.srcs fr.src).subscribers k).any (matchEid e.eid) = true))
+      (hdead : live = false → (∃ p ∈ m.gone, p.1 = e.eid) ∨ (m.v.oncePre = true ∧ e.once = true)) :
+      Step β m { m with srcs := srcs', log := m.log ++ [.call fr.fid fr.src e live],
                         stack := { fr with rest := rest, cur := some (e, acts, ret), halt := h } :: st }
+
+theorem claim_none {v : Variant} {srcs : Nat → Src} {i : Nat} {e : Entry} (h : claim v srcs i e = none) :
+    v.oncePre = true ∧ e.once = true := by
+  unfold claim at h
+  split at h
+  · rename_i hc; simpa using hc
+  · cases h
+
+theorem claim_some {v : Variant} {srcs srcs' : Nat → Src} {i : Nat} {e : Entry} (h : claim v srcs i e = some srcs') :
+    (srcs' = srcs ∨ srcs' = updSrc srcs i (rmEidAll (srcs i) e.eid)) ∧
+    (v.oncePre = true → e.once = true →
+      srcs' = updSrc srcs i (rmEidAll (srcs i) e.eid) ∧ ∃ k, ((srcs i).subscribers k).any (matchEid e.eid) = true) := by
+  unfold claim at h
+  split at h
+  · split at h
+    · rename_i s' heq
+      cases h
+      simp only [removeWhere, Prod.mk.injEq, Res.ok.injEq, Val.bool.injEq] at heq
+      obtain ⟨h1, h2⟩ := heq
+      have hs' : s' = rmEidAll (srcs i) e.eid := by rw [← h1]; rfl
+      obtain ⟨k, _, hk⟩ := List.any_eq_true.mp h2
+      exact ⟨.inr (by rw [hs']), fun _ _ => ⟨by rw [hs'], k, hk⟩⟩
+    · cases h
+  · rename_i hc
+    cases h
+    refine ⟨.inl rfl, fun h1 h2 => ?_⟩
+    simp [h1, h2] at hc
 
 theorem step_rel (β : Beh) (m : M) : Step β m (step β m) := by
   unfold step
@@ -462,12 +495,24 @@ theorem step_rel (β : Beh) (m : M) : Step β m (step β m) := by
         · rename_i hr; exact .fFinish fr st hp hs hc hr
         · rename_i e rest hr
           split
-          · exact .fInvoke fr st e rest false _ _ fr.halt hp hs hc hr (by intro h; cases h)
-          · rename_i hnone
-            refine .fInvoke fr st e rest true _ _ _ hp hs hc hr ?_
-            intro _ p hp'
-            have := List.find?_eq_none.mp hnone p hp'
-            simpa using this
+          · rename_i hcl
+            exact .fInvoke fr st e rest false _ _ fr.halt m.srcs hp hs hc hr (.inl rfl) (by intro h; cases h)
+              (fun _ => .inr (claim_none hcl))
+          · rename_i srcs' hcl
+            obtain ⟨h1, h2⟩ := claim_some hcl
+            split
+            · rename_i x zombie hfind
+              have hmem := List.mem_of_find?_eq_some hfind
+              have hx : x = e.eid := by simpa using List.find?_some hfind
+              exact .fInvoke fr st e rest false _ _ fr.halt srcs' hp hs hc hr h1 (by intro h; cases h)
+                (fun _ => .inl ⟨_, hmem, hx⟩)
+            · rename_i hnone
+              refine .fInvoke fr st e rest true _ _ _ srcs' hp hs hc hr h1 ?_ (by intro h; cases h)
+              intro _
+              refine ⟨?_, h2⟩
+              intro p hp'
+              have := List.find?_eq_none.mp hnone p hp'
+              simpa using this
 
 /-! ### the frame invariant -/
 
@@ -647,7 +692,7 @@ theorem WF.step {β : Beh} {m m' : M} (hw : WF m) (h : Step β m m') : WF m' := 
     refine hw.pop hs rfl rfl ?_
     intro f hf
     simp [finish, SameFor, callsOf, retsOf]
-  | fInvoke fr st e rest live acts ret h hp hs hc hr hlive =>
+  | fInvoke fr st e rest live acts ret h srcs' hp hs hc hr hsrc hlive hdead =>
     have hok := hw.ok fr (by rw [hs]; exact List.mem_cons_self)
     refine hw.modTop (fr' := _) hs rfl rfl rfl ?_ ?_ (by simp)
     · intro f hf; simp [SameFor, callsOf, retsOf, Ne.symm hf]
@@ -757,7 +802,7 @@ theorem step_frame {β : Beh} {m m' : M} (hw : WF m) (h : Step β m m') (x : Fra
   | fFinish fr st hp hs hc hr =>
     have hok := hw.ok fr (by rw [hs]; exact List.mem_cons_self)
     exact hpop hs rfl (done_of_exhausted hok hc hr (by simp [finish, callsOf]) (by simp [finish, retsOf]))
-  | fInvoke fr st e rest live acts ret h hp hs hc hr hlive => left; exact hmod hs ⟨[], rfl⟩ ⟨rfl, rfl, rfl, rfl⟩
+  | fInvoke fr st e rest live acts ret h srcs' hp hs hc hr hsrc hlive hdead => left; exact hmod hs ⟨[], rfl⟩ ⟨rfl, rfl, rfl, rfl⟩
 
 
 theorem exec_nextFid {m m' : M} {g : Bool} (he : ExecR m g m') : m.nextFid ≤ m'.nextFid := by
@@ -813,7 +858,7 @@ theorem step_new_frame {β : Beh} {m m' : M} (h : Step β m m') (x' : Frame) (hx
       · exact ⟨fr, by rw [hs]; exact List.mem_cons_self, rfl, rfl, rfl, rfl⟩
       · exact hsub hs hx'
   | fFinish fr st hp hs hc hr => left; exact hsub hs hx'
-  | fInvoke fr st e rest live acts ret h hp hs hc hr hlive =>
+  | fInvoke fr st e rest live acts ret h srcs' hp hs hc hr hsrc hlive hdead =>
     left
     simp only [List.mem_cons] at hx'
     rcases hx' with rfl | hx'
@@ -846,7 +891,7 @@ theorem step_same_other {β : Beh} {m m' : M} (h : Step β m m') (f : Nat) (hf :
     have hne : fr.fid ≠ f := hf fr (by simp [hs])
     simp only [hret]; split <;> simp [finish, SameFor, callsOf, retsOf, hne]
   | fFinish fr st hp hs hc hr => simp [finish, SameFor, callsOf, retsOf]
-  | fInvoke fr st e rest live acts ret h hp hs hc hr hlive =>
+  | fInvoke fr st e rest live acts ret h srcs' hp hs hc hr hsrc hlive hdead =>
     have hne : fr.fid ≠ f := hf fr (by simp [hs])
     simp [SameFor, callsOf, retsOf, hne]
 
@@ -906,7 +951,7 @@ theorem step_push {β : Beh} {m m' : M} (h : Step β m m') (fr : Frame) (rest : 
     · simp [hret, hh, finish, hs] at hlen; omega
     · simp [hret, hh, hs] at hlen
   | fFinish fr0 st hp hs hc hr => simp [finish, hs] at hlen; omega
-  | fInvoke fr0 st e rest live acts ret h hp hs hc hr hlive => simp [hs] at hlen
+  | fInvoke fr0 st e rest live acts ret h srcs' hp hs hc hr hsrc hlive hdead => simp [hs] at hlen
 
 
 
@@ -975,6 +1020,7 @@ theorem exec_sync {m : M} (h : Sync m.srcs) (sa : SAct) (g : Bool) : Sync (exec 
   | raise et form noErr =>
     simp only [exec]
     cases form with
+    | junk isClass => simpa using ht
     | inst => simp only; split <;> simpa [push] using ht
     | cls => simp only; split <;> (try split) <;> simpa [push] using ht
   | add et hid prio once weak => exact hother
@@ -1030,7 +1076,14 @@ theorem step_sync (β : Beh) {m : M} (h : Sync m.srcs) : Sync (step β m).srcs :
       · exact hret_sync h _ _ _ _
       · split
         · simpa [finish] using h
-        · split <;> exact h
+        · split
+          · exact h
+          · rename_i srcs' hcl
+            have hs' : Sync srcs' := by
+              rcases (claim_some hcl).1 with h1 | h1 <;> rw [h1]
+              · exact h
+              · exact updSrc_sync h _ _ (rmEidAll_nextEid _ _)
+            split <;> exact hs'
 
 theorem run_sync (β : Beh) {m : M} (h : Sync m.srcs) (n : Nat) : Sync (run β n m).srcs := by
   induction n generalizing m with
@@ -1083,6 +1136,13 @@ theorem step_src {P : Src → Prop} (hP : SrcClosed P) {β : Beh} {m m' : M} (hs
     rcases abort_srcs m fr st k with h1 | ⟨x, h1⟩ <;> rw [h1]
     · exact hs
     · unfold updSrc; split
+      · rename_i hj; subst hj; exact hP.2.1 _ _ hs
+      · exact hs
+  | fInvoke fr st e rest live acts ret h srcs' hp hs' hc hr hsrc hlive hdead =>
+    rcases hsrc with h1 | h1 <;> rw [h1]
+    · exact hs
+    · show P (updSrc m.srcs fr.src (rmEidAll (m.srcs fr.src) e.eid) j)
+      unfold updSrc; split
       · rename_i hj; subst hj; exact hP.2.1 _ _ hs
       · exact hs
   | _ => simpa [finish] using hs
@@ -1251,7 +1311,7 @@ theorem step_calls {β : Beh} {m m' : M} (hw : WF m) (h : Step β m m') (f s : N
     · simpa [hret, hh, finish] using hy
     · simpa [hret, hh] using hy
   | fFinish fr st hp hs hc hr => left; simpa [finish] using hy
-  | fInvoke fr st e rest live acts ret h hp hs hc hr hlive =>
+  | fInvoke fr st e rest live acts ret h srcs' hp hs hc hr hsrc hlive hdead =>
     simp only [List.mem_append, List.mem_singleton] at hy
     rcases hy with hy | hy
     · exact .inl hy
@@ -1393,7 +1453,7 @@ theorem GoodLog.step {β : Beh} {m m' : M} (h : Step β m m') (hg : GoodLog m.lo
     · exact (hg.snoc (ev := .ret fr.fid e r fr.halt) trivial).snoc (ev := .endf fr.fid fr.noErr (.ok (.event true))) (by cases fr.noErr <;> trivial)
     · exact hg.snoc trivial
   | fFinish fr st hp hs hc hr => exact hg.snoc (ev := .endf fr.fid fr.noErr (.ok (.event fr.halt))) (by cases fr.noErr <;> trivial)
-  | fInvoke fr st e rest live acts ret h hp hs hc hr hlive => exact hg.snoc trivial
+  | fInvoke fr st e rest live acts ret h srcs' hp hs hc hr hsrc hlive hdead => exact hg.snoc trivial
 
 theorem GoodLog.run {β : Beh} {m : M} (hg : GoodLog m.log) (n : Nat) : GoodLog (run β n m).log := by
   induction n generalizing m with
@@ -1419,7 +1479,7 @@ theorem step_log {β : Beh} {m m' : M} (h : Step β m m') : ∃ d, m'.log = m.lo
     · exact ⟨_, by simp only [finish, List.append_assoc]; rfl⟩
     · exact ⟨_, rfl⟩
   | fFinish fr st hp hs hc hr => exact ⟨_, rfl⟩
-  | fInvoke fr st e rest live acts ret h hp hs hc hr hlive => exact ⟨_, rfl⟩
+  | fInvoke fr st e rest live acts ret h srcs' hp hs hc hr hsrc hlive hdead => exact ⟨_, rfl⟩
 
 theorem run_log (β : Beh) (m : M) (n : Nat) : ∃ d, (run β n m).log = m.log ++ d := by
   induction n generalizing m with
@@ -1647,6 +1707,7 @@ theorem exec_v (m : M) (sa : SAct) (g : Bool) : (exec m sa g).v = m.v := by
   | raise et form noErr =>
     simp only [exec]
     cases form with
+    | junk isClass => rfl
     | inst => simp only; split <;> simp [push]
     | cls => simp only; split <;> (try split) <;> simp [push]
   | dropOwner o => simp only [exec]; split <;> rfl
@@ -1666,7 +1727,9 @@ theorem step_v (β : Beh) (m : M) : (step β m).v = m.v := by
       · simp only [hret]; split <;> simp [finish]
       · split
         · simp [finish]
-        · split <;> rfl
+        · split
+          · rfl
+          · split <;> rfl
 
 theorem run_v (β : Beh) (n : Nat) (m : M) : (run β n m).v = m.v := by
   induction n generalizing m with
@@ -1717,7 +1780,7 @@ theorem StrictLog.step {β : Beh} {m m' : M} (hv : m.v.noErrAll = true) (h : Ste
     · exact (hg.snoc (ev := .ret fr.fid e r fr.halt) trivial).snoc (ev := .endf fr.fid fr.noErr (.ok (.event true))) (by cases fr.noErr <;> trivial)
     · exact hg.snoc trivial
   | fFinish fr st hp hs hc hr => exact hg.snoc (ev := .endf fr.fid fr.noErr (.ok (.event fr.halt))) (by cases fr.noErr <;> trivial)
-  | fInvoke fr st e rest live acts ret h hp hs hc hr hlive => exact hg.snoc trivial
+  | fInvoke fr st e rest live acts ret h srcs' hp hs hc hr hsrc hlive hdead => exact hg.snoc trivial
 
 theorem StrictLog.run {β : Beh} {m : M} (hv : m.v.noErrAll = true) (hg : StrictLog m.log) (n : Nat) : StrictLog (run β n m).log := by
   induction n generalizing m with
@@ -1783,14 +1846,14 @@ theorem step_live_call {β : Beh} {m m' : M} (h : Step β m m') (f s : Nat) (y :
     · simpa [hret, hh, finish] using hy
     · simpa [hret, hh] using hy
   | fFinish fr st hp hs hc hr => left; simpa [finish] using hy
-  | fInvoke fr st e rest live acts ret h hp hs hc hr hlive =>
+  | fInvoke fr st e rest live acts ret h srcs' hp hs hc hr hsrc hlive hdead =>
     simp only [List.mem_append, List.mem_singleton] at hy
     rcases hy with hy | hy
     · exact .inl hy
     · right
       injection hy with h1 h2 h3 h4
       subst h3
-      exact hlive h4.symm
+      exact (hlive h4.symm).1
 
 /-- once a subscription is marked gone (its owner was collected while it sat in an in-flight snapshot), its handler's
     code is never run again: every live call of it in any later log was already in the log -/
@@ -1812,5 +1875,426 @@ theorem collect_mem (srcs : Nat → Src) (o : Nat) (stack : List Frame) (fr : Fr
     (he : e ∈ fr.rest) (hw : e.weak = some o) : (e.eid, ((srcs fr.src).handlers fr.et).isNone) ∈ collect srcs o stack := by
   simp only [collect, List.mem_flatMap, List.mem_map, List.mem_filter]
   exact ⟨fr, hfr, e, ⟨he, by simp [hw]⟩, rfl⟩
+
+/-! ### a one-shot subscription fires at most once (`oncePre`); visits without a call have a reason -/
+
+
+/-- how often the code of a one-shot subscription `x` of source `s` has been run -/
+def liveOnce (s x : Nat) : List Ev → Nat
+  | [] => 0
+  | .call _ s' e live :: l => (if s' = s ∧ live = true ∧ e.once = true ∧ e.eid = x then 1 else 0) + liveOnce s x l
+  | _ :: l => liveOnce s x l
+
+theorem liveOnce_append (s x : Nat) (l d : List Ev) : liveOnce s x (l ++ d) = liveOnce s x l + liveOnce s x d := by
+  induction l with
+  | nil => simp [liveOnce]
+  | cons ev l ih => cases ev <;> simp only [List.cons_append, liveOnce, ih] <;> omega
+
+/-- a step runs the code of a one-shot subscription at most once more, and (with `oncePre`) only by claiming it: it was
+    subscribed, and is unsubscribed by the same step -/
+theorem step_liveOnce {β : Beh} {m m' : M} (h : Step β m m') (s x : Nat) :
+    liveOnce s x m'.log = liveOnce s x m.log ∨
+    (liveOnce s x m'.log = liveOnce s x m.log + 1 ∧
+      (m.v.oncePre = true → m'.srcs s = rmEidAll (m.srcs s) x ∧ ∃ k, ((m.srcs s).subscribers k).any (matchEid x) = true)) := by
+  have hexec : ∀ {m1 : M} {g : Bool}, ExecR m1 g m' → m1.log = m.log → liveOnce s x m'.log = liveOnce s x m.log := by
+    intro m1 g he hl
+    cases he with
+    | quiet srcs' r n gn hn' hs hgn => rw [← hl]
+    | enter i et noErr hd => simp [push, hl, liveOnce_append, liveOnce]
+  cases h with
+  | deliverAbort k fr st hp hs =>
+    left
+    simp only [abort]
+    cases hcur : fr.cur with
+    | none => simp [liveOnce_append, liveOnce]
+    | some c => obtain ⟨e, acts, r⟩ := c; simp [liveOnce_append, liveOnce]
+  | deliver r g hp => left; simp [liveOnce_append, liveOnce]
+  | idle => exact .inl rfl
+  | topExec a as m' hp hs he => exact .inl (hexec he rfl)
+  | hExec fr st e a g acts r m' hp hs hc he => exact .inl (hexec he rfl)
+  | hAbort fr st e k hp hs hc => left; simp [abort, hc, liveOnce_append, liveOnce]
+  | hRet fr st e r hp hs hc hr =>
+    left
+    by_cases hh : stopsAt r fr.halt = true
+    · simp [hret, hh, finish, liveOnce_append, liveOnce]
+    · simp [hret, hh, liveOnce_append, liveOnce]
+  | fFinish fr st hp hs hc hr => left; simp [finish, liveOnce_append, liveOnce]
+  | fInvoke fr st e rest live acts ret h srcs' hp hs hc hr hsrc hlive hdead =>
+    by_cases hcond : fr.src = s ∧ live = true ∧ e.once = true ∧ e.eid = x
+    · right
+      obtain ⟨h1, h2, h3, h4⟩ := hcond
+      refine ⟨by simp [liveOnce_append, liveOnce, h1, h2, h3, h4], fun hv => ?_⟩
+      obtain ⟨hs', k, hk⟩ := (hlive h2).2 hv h3
+      subst h1; subst h4
+      exact ⟨by simp [hs'], k, hk⟩
+    · left; simp [liveOnce_append, liveOnce, hcond]
+
+/-- with `oncePre`: the code of a one-shot subscription has run at most once, and once it has, the subscription is gone -/
+def OnceInv (m : M) : Prop :=
+  ∀ s x, liveOnce s x m.log ≤ 1 ∧ (1 ≤ liveOnce s x m.log → Absent x (m.srcs s))
+
+theorem absent_not_subscribed {x : Nat} {s : Src} (h : Absent x s) (k : Nat) : (s.subscribers k).any (matchEid x) = false := by
+  unfold Src.subscribers
+  cases hh : s.handlers k with
+  | none => rfl
+  | some l =>
+    simp only [List.any_eq_false, matchEid, beq_iff_eq]
+    exact fun e he => h.2 k l hh e he
+
+theorem OnceInv.step' {β : Beh} {m : M} (hi : MInv m) (hv : m.v.oncePre = true) (ho : OnceInv m) : OnceInv (step β m) := by
+  intro s x
+  obtain ⟨hle, habs⟩ := ho s x
+  have hstep := step_rel β m
+  have hpres : Absent x (m.srcs s) → Absent x ((step β m).srcs s) := step_src (absent_closed x) hi.sync hstep s
+  rcases step_liveOnce hstep s x with heq | ⟨heq, hclaim⟩
+  · rw [heq]; exact ⟨hle, fun h1 => hpres (habs h1)⟩
+  · obtain ⟨hsrc, k, hk⟩ := hclaim hv
+    have h0 : liveOnce s x m.log = 0 := by
+      rcases Nat.eq_zero_or_pos (liveOnce s x m.log) with h | h
+      · exact h
+      · have := absent_not_subscribed (habs h) k; rw [this] at hk; cases hk
+    rw [heq, h0]
+    refine ⟨Nat.le_refl _, fun _ => ?_⟩
+    rw [hsrc]
+    apply rmEidAll_absent
+    -- the entry is in a list of the source, so its id has been handed out
+    unfold Src.subscribers at hk
+    cases hh : (m.srcs s).handlers k with
+    | none => simp [hh] at hk
+    | some l =>
+      simp only [hh, List.any_eq_true, matchEid, beq_iff_eq] at hk
+      obtain ⟨e, he, rfl⟩ := hk
+      exact (hi.src s).bound k l hh e he
+
+theorem OnceInv.run {β : Beh} {m : M} (hi : MInv m) (hv : m.v.oncePre = true) (ho : OnceInv m) (n : Nat) : OnceInv (run β n m) := by
+  induction n generalizing m with
+  | zero => exact ho
+  | succ n ih => exact ih hi.step' (by rw [step_v]; exact hv) (ho.step' hi hv)
+
+/-- every entry a delivery has reached without running its handler's code had a reason: its owner had been collected, or
+    (`oncePre`) it is a one-shot entry that was not subscribed any more -/
+def DeadOK (m : M) : Prop :=
+  ∀ f s e, Ev.call f s e false ∈ m.log → (∃ p ∈ m.gone, p.1 = e.eid) ∨ (m.v.oncePre = true ∧ e.once = true)
+
+theorem DeadOK.step' {β : Beh} {m : M} (hd : DeadOK m) : DeadOK (step β m) := by
+  intro f s y hy
+  have hstep := step_rel β m
+  obtain ⟨dg, hdg⟩ := step_gone hstep
+  have hold : Ev.call f s y false ∈ m.log → (∃ p ∈ (step β m).gone, p.1 = y.eid) ∨ ((step β m).v.oncePre = true ∧ y.once = true) := by
+    intro h
+    rcases hd f s y h with ⟨p, hp, hp1⟩ | h2
+    · exact .inl ⟨p, by rw [hdg]; exact List.mem_append_left _ hp, hp1⟩
+    · right; rw [step_v]; exact h2
+  have hexec : ∀ {m1 : M} {g : Bool}, ExecR m1 g (step β m) → m1.log = m.log → Ev.call f s y false ∈ m.log := by
+    intro m1 g he hl
+    generalize hm' : step β m = m' at he hy
+    cases he with
+    | quiet srcs' r n gn hn' hs hgn => rw [← hl]; exact hy
+    | enter i et noErr hd => simpa [push, hl] using hy
+  generalize hm' : step β m = m' at hstep hy hold hexec hdg
+  cases hstep with
+  | deliverAbort k fr st hp hs =>
+    apply hold
+    simp only [abort] at hy
+    cases hcur : fr.cur with
+    | none => simpa [hcur] using hy
+    | some c => obtain ⟨e, acts, r⟩ := c; simpa [hcur] using hy
+  | deliver r g hp => apply hold; simpa using hy
+  | idle => exact hold hy
+  | topExec a as m' hp hs he => exact hold (hexec he rfl)
+  | hExec fr st e a g acts r m' hp hs hc he => exact hold (hexec he rfl)
+  | hAbort fr st e k hp hs hc => apply hold; simpa [abort, hc] using hy
+  | hRet fr st e r hp hs hc hr =>
+    apply hold
+    by_cases hh : stopsAt r fr.halt = true
+    · simpa [hret, hh, finish] using hy
+    · simpa [hret, hh] using hy
+  | fFinish fr st hp hs hc hr => apply hold; simpa [finish] using hy
+  | fInvoke fr st e rest live acts ret h srcs' hp hs hc hr hsrc hlive hdead =>
+    simp only [List.mem_append, List.mem_singleton] at hy
+    rcases hy with hy | hy
+    · exact hold hy
+    · injection hy with h1 h2 h3 h4
+      subst h3
+      rcases hdead h4.symm with ⟨p, hp', hp1⟩ | h2'
+      · exact .inl ⟨p, by simpa using hp', hp1⟩
+      · exact .inr (by simpa using h2')
+
+theorem DeadOK.run {β : Beh} {m : M} (hd : DeadOK m) (n : Nat) : DeadOK (run β n m) := by
+  induction n generalizing m with
+  | zero => exact hd
+  | succ n ih => exact ih hd.step'
+
+theorem liveCallsOf_sublist (f : Nat) (log : List Ev) : (liveCallsOf f log).Sublist (callsOf f log) := by
+  induction log with
+  | nil => exact List.Sublist.refl _
+  | cons ev l ih =>
+    cases ev with
+    | call f' s e live =>
+      simp only [liveCallsOf, callsOf]
+      by_cases hf : f' = f
+      · by_cases hl : live = true
+        · simp [hf, hl, ih]
+        · simp [hf, hl]; exact List.Sublist.cons _ ih
+      · simp [hf, ih]
+    | _ => simpa only [liveCallsOf, callsOf] using ih
+
+/-- an entry a delivery has reached either had its code run or was answered without -/
+theorem calls_live_or_dead (f : Nat) (log : List Ev) (e : Entry) (he : e ∈ callsOf f log) :
+    e ∈ liveCallsOf f log ∨ ∃ s, Ev.call f s e false ∈ log := by
+  induction log with
+  | nil => cases he
+  | cons ev l ih =>
+    cases ev with
+    | call f' s y live =>
+      simp only [callsOf] at he
+      by_cases hf : f' = f
+      · simp only [hf, if_true, List.mem_cons] at he
+        rcases he with rfl | he
+        · cases live
+          · exact .inr ⟨s, by simp [hf]⟩
+          · exact .inl (by simp [liveCallsOf, hf])
+        · rcases ih he with h | ⟨s', h⟩
+          · left; simp only [liveCallsOf]; split <;> simp [h]
+          · exact .inr ⟨s', List.mem_cons_of_mem _ h⟩
+      · simp only [hf, if_false] at he
+        rcases ih he with h | ⟨s', h⟩
+        · left; simp only [liveCallsOf]; split <;> simp [h]
+        · exact .inr ⟨s', List.mem_cons_of_mem _ h⟩
+    | _ =>
+      simp only [callsOf] at he
+      rcases ih he with h | ⟨s', h⟩
+      · exact .inl (by simpa only [liveCallsOf] using h)
+      · exact .inr ⟨s', List.mem_cons_of_mem _ h⟩
+
+/-! ### what `autoBindEvents` subscribes -/
+
+
+theorem addCore_list (s : Src) (et hid : Nat) (prio : Int) (once : Bool) (weak : Option Nat) :
+    ∃ l', (addCore s et hid prio once weak).1.handlers et = some l' ∧
+      ∀ y, y ∈ l' ↔ y = ⟨prio, hid, once, s.nextEid + 1, weak⟩ ∨ y ∈ s.subscribers et := by
+  cases hpr : (prio != 0 || s.prioritized.contains et) with
+  | true =>
+    refine ⟨sortDesc (s.subscribers et ++ [⟨prio, hid, once, s.nextEid + 1, weak⟩]), by simp only [addCore, hpr, if_true], ?_⟩
+    intro y; rw [sortDesc_snoc, mem_foldr_ins]
+  | false =>
+    refine ⟨s.subscribers et ++ [⟨prio, hid, once, s.nextEid + 1, weak⟩], by simp only [addCore, hpr]; simp, ?_⟩
+    intro y; simp [List.mem_append, or_comm]
+
+theorem addCore_keeps (s : Src) (et hid : Nat) (prio : Int) (once : Bool) (weak : Option Nat) (k : Nat) (l : List Entry)
+    (hl : s.handlers k = some l) :
+    ∃ l', (addCore s et hid prio once weak).1.handlers k = some l' ∧ ∀ y ∈ l, y ∈ l' := by
+  by_cases hk : k = et
+  · subst hk
+    obtain ⟨l', h1, h2⟩ := addCore_list s k hid prio once weak
+    refine ⟨l', h1, fun y hy => (h2 y).mpr (.inr ?_)⟩
+    simp [Src.subscribers, hl, hy]
+  · exact ⟨l, by simp [addCore, hk, hl], fun _ h => h⟩
+
+theorem bindAll_keeps (s : Src) (hb : Nat) (prio : Int) (weak : Option Nat) (ets : List Nat) (k : Nat) (l : List Entry)
+    (hl : s.handlers k = some l) :
+    ∃ l', (bindAll s hb prio weak ets).1.handlers k = some l' ∧ ∀ y ∈ l, y ∈ l' := by
+  induction ets generalizing s l with
+  | nil => exact ⟨l, hl, fun _ h => h⟩
+  | cons et ets ih =>
+    simp only [bindAll]
+    split
+    · obtain ⟨l1, h1, h2⟩ := addCore_keeps s et (hb + et) prio false weak k l hl
+      obtain ⟨l2, h3, h4⟩ := ih _ l1 h1
+      exact ⟨l2, h3, fun y hy => h4 y (h2 y hy)⟩
+    · exact ih s l hl
+
+/-- every subscription `autoBindEvents` reports is in the list of its event type afterwards, and carries the sink's
+    method for that event, the priority and the weak flag given, and is not one-shot -/
+theorem bindAll_entries (s : Src) (hb : Nat) (prio : Int) (weak : Option Nat) (ets : List Nat) :
+    ∀ p ∈ (bindAll s hb prio weak ets).2, ∃ l, (bindAll s hb prio weak ets).1.handlers p.1 = some l ∧
+      (⟨prio, hb + p.1, false, p.2, weak⟩ : Entry) ∈ l := by
+  induction ets generalizing s with
+  | nil => intro p hp; cases hp
+  | cons et ets ih =>
+    simp only [bindAll]
+    split
+    · intro p hp
+      rcases List.mem_cons.mp hp with rfl | hp
+      · obtain ⟨l1, h1, h2⟩ := addCore_list s et (hb + et) prio false weak
+        obtain ⟨l2, h3, h4⟩ := bindAll_keeps (addCore s et (hb + et) prio false weak).1 hb prio weak ets et l1 h1
+        exact ⟨l2, h3, h4 _ ((h2 _).mpr (.inl rfl))⟩
+      · exact ih _ p hp
+    · exact ih s
+
+/-! ### declarations never change; nobody is subscribed to an undeclared type; `removeListener` by form -/
+
+
+theorem removeWhere_decl (s : Src) (p : Entry → Bool) (o : Option Nat) :
+    (removeWhere s p o).1.declared = s.declared ∧ (removeWhere s p o).1.acceptAll = s.acceptAll :=
+  ⟨(removeWhere_fields s p o).2.2.1, (removeWhere_fields s p o).2.2.2.1⟩
+
+theorem bindAll_decl (ets : List Nat) (s : Src) (hb : Nat) (prio : Int) (weak : Option Nat) :
+    (bindAll s hb prio weak ets).1.declared = s.declared ∧ (bindAll s hb prio weak ets).1.acceptAll = s.acceptAll := by
+  induction ets generalizing s with
+  | nil => exact ⟨rfl, rfl⟩
+  | cons et ets ih =>
+    simp only [bindAll]; split
+    · exact ih _
+    · exact ih s
+
+theorem rmMany_decl (l : List (Nat × Nat)) (s : Src) (alt : Bool) :
+    (rmMany s alt l).1.declared = s.declared ∧ (rmMany s alt l).1.acceptAll = s.acceptAll := by
+  induction l generalizing s alt with
+  | nil => exact ⟨rfl, rfl⟩
+  | cons p rest ih =>
+    obtain ⟨et, eid⟩ := p
+    simp only [rmMany]; split
+    · exact ⟨rfl, rfl⟩
+    · exact ih _ _
+
+/-- the declaration of a source never changes -/
+theorem doAction_decl (s : Src) (a : Action) :
+    (doAction s a).1.declared = s.declared ∧ (doAction s a).1.acceptAll = s.acceptAll := by
+  cases a with
+  | add et hid prio once weak => simp only [doAction]; split <;> exact ⟨rfl, rfl⟩
+  | bind meths pfx hb prio weak => simp only [doAction]; split; exact ⟨rfl, rfl⟩; exact bindAll_decl _ _ _ _ _
+  | rmHandler hid et => exact removeWhere_decl _ _ _
+  | rmEid eid et => exact removeWhere_decl _ _ _
+  | rmPair et eid et' => exact removeWhere_decl _ _ _
+  | rmMany l => exact rmMany_decl l s false
+  | clear => exact ⟨rfl, rfl⟩
+  | dropOwner o => exact removeWhere_decl _ _ _
+  | count => simp only [doAction]; split <;> exact ⟨rfl, rfl⟩
+  | raise et form noErr => exact ⟨rfl, rfl⟩
+
+theorem decl_closed (d : List Nat) (a : Bool) : SrcClosed (fun s => s.declared = d ∧ s.acceptAll = a) :=
+  ⟨fun s act h => by obtain ⟨h1, h2⟩ := doAction_decl s act; rw [h1, h2]; exact h,
+   fun s x h => by
+     obtain ⟨h1, h2⟩ := removeWhere_decl s (matchEid x) none
+     exact ⟨h1.trans h.1, h2.trans h.2⟩,
+   fun _ _ _ h => h⟩
+
+/-- nobody is ever subscribed to an event type the source does not declare: there is not even a list for it -/
+def UndeclEmpty (s : Src) : Prop := ∀ et, s.isDeclared et = false → s.handlers et = none
+
+theorem UndeclEmpty.of_sub {s s' : Src} (h : UndeclEmpty s) (hd : s'.declared = s.declared ∧ s'.acceptAll = s.acceptAll)
+    (hsub : ∀ k l', s'.handlers k = some l' → ∃ l, s.handlers k = some l) : UndeclEmpty s' := by
+  intro et hu
+  have hu' : s.isDeclared et = false := by simpa [Src.isDeclared, hd.1, hd.2] using hu
+  cases hh : s'.handlers et with
+  | none => rfl
+  | some l' => obtain ⟨l, hl⟩ := hsub et l' hh; rw [h et hu'] at hl; cases hl
+
+theorem UndeclEmpty.addCore {s : Src} (h : UndeclEmpty s) (et hid : Nat) (prio : Int) (once : Bool) (weak : Option Nat)
+    (hdecl : s.isDeclared et = true) : UndeclEmpty (addCore s et hid prio once weak).1 := by
+  intro k hk
+  have hk' : s.isDeclared k = false := hk
+  have hne : k ≠ et := by intro he; rw [he, hdecl] at hk'; cases hk'
+  simp only [Pox.Revent.addCore, hne, if_false]
+  exact h k hk'
+
+theorem UndeclEmpty.bindAll {s : Src} (h : UndeclEmpty s) (hb : Nat) (prio : Int) (weak : Option Nat) (ets : List Nat) :
+    UndeclEmpty (bindAll s hb prio weak ets).1 := by
+  induction ets generalizing s with
+  | nil => exact h
+  | cons et ets ih =>
+    simp only [Pox.Revent.bindAll]; split
+    · rename_i hd
+      exact ih (h.addCore et _ prio false weak (by simp only [Src.isDeclared, hd, Bool.or_true]))
+    · exact ih h
+
+theorem undecl_closed : SrcClosed UndeclEmpty := by
+  have hrw : ∀ (s : Src) (p : Entry → Bool) (o : Option Nat), UndeclEmpty s → UndeclEmpty (removeWhere s p o).1 :=
+    fun s p o h => h.of_sub (removeWhere_decl s p o)
+      (fun k l' hk => by obtain ⟨l, hl, _⟩ := removeWhere_handlers s p o k l' hk; exact ⟨l, hl⟩)
+  refine ⟨?_, fun s x h => hrw s _ none h, fun _ _ _ h => h⟩
+  intro s a h
+  cases a with
+  | add et hid prio once weak =>
+    simp only [doAction]; split
+    · rename_i hd; exact h.addCore et hid prio once weak hd
+    · exact h
+  | bind meths pfx hb prio weak => simp only [doAction]; split; exact h; exact h.bindAll _ _ _ _
+  | rmHandler hid et => exact hrw _ _ _ h
+  | rmEid eid et => exact hrw _ _ _ h
+  | rmPair et eid et' => exact hrw _ _ _ h
+  | rmMany l =>
+    exact h.of_sub (rmMany_decl l s false)
+      (fun k l' hk => by obtain ⟨l0, hl0, _⟩ := (rmMany_sub s false l).2.2.2 k l' hk; exact ⟨l0, hl0⟩)
+  | clear => intro et _; rfl
+  | dropOwner o => exact hrw _ _ _ h
+  | count => simp only [doAction]; split <;> exact h
+  | raise et form noErr => exact h
+
+/-- what `removeListener` does, for a predicate and a scope: every form of the call is one of these -/
+theorem removeWhere_spec (s : Src) (p : Entry → Bool) (scope : Option Nat) :
+    match scope with
+    | none =>
+      (∀ k, (removeWhere s p none).1.handlers k = (s.handlers k).map (List.filter fun e => !p e)) ∧
+      (∀ k l, (removeWhere s p none).1.handlers k = some l → ∀ e ∈ l, p e = false)
+    | some et =>
+      match s.handlers et with
+      | none => removeWhere s p (some et) = (s, .exc .key)
+      | some l =>
+        (removeWhere s p (some et)).1.handlers et = some (l.filter fun e => !p e) ∧
+        (∀ k, k ≠ et → (removeWhere s p (some et)).1.handlers k = s.handlers k) ∧
+        (removeWhere s p (some et)).2 = .ok (.bool (l.any p)) := by
+  cases scope with
+  | none =>
+    refine ⟨fun k => rfl, ?_⟩
+    intro k l hl e he
+    simp only [removeWhere, Option.map_eq_some_iff] at hl
+    obtain ⟨l0, _, rfl⟩ := hl
+    simpa [dropMatching] using (List.mem_filter.mp he).2
+  | some et =>
+    simp only
+    cases hl : s.handlers et with
+    | none => simp [removeWhere, hl]
+    | some l =>
+      simp only [removeWhere, hl]
+      exact ⟨by simp [dropMatching], fun k hk => by simp [hk], by simp⟩
+
+/-- every delivery that ever started was for an event type its source declares -/
+def BeginOK (m : M) : Prop := ∀ f i et snap, Ev.begin f i et snap ∈ m.log → (m.srcs i).isDeclared et = true
+
+theorem isDeclared_step {β : Beh} {m : M} (hsync : Sync m.srcs) (i et : Nat) :
+    ((step β m).srcs i).isDeclared et = (m.srcs i).isDeclared et := by
+  have := step_src (decl_closed (m.srcs i).declared (m.srcs i).acceptAll) hsync (step_rel β m) i ⟨rfl, rfl⟩
+  simp [Src.isDeclared, this.1, this.2]
+
+theorem BeginOK.step' {β : Beh} {m : M} (hsync : Sync m.srcs) (hb : BeginOK m) : BeginOK (step β m) := by
+  intro f i et snap hy
+  rw [isDeclared_step hsync]
+  have hstep := step_rel β m
+  have hexec : ∀ {m1 : M} {g : Bool}, ExecR m1 g (step β m) → m1.log = m.log → m1.srcs = m.srcs →
+      Ev.begin f i et snap ∈ m.log ∨ (m.srcs i).isDeclared et = true := by
+    intro m1 g he hl hs
+    generalize hm' : step β m = m' at he hy
+    cases he with
+    | quiet srcs' r n gn hn' hs' hgn => left; rw [← hl]; exact hy
+    | enter i' et' noErr hd =>
+      simp only [push, hl, List.mem_append, List.mem_singleton] at hy
+      rcases hy with hy | hy
+      · exact .inl hy
+      · right; injection hy with h1 h2 h3 h4; subst h2; subst h3; rw [← hs]; exact hd
+  have fin : Ev.begin f i et snap ∈ m.log ∨ (m.srcs i).isDeclared et = true → (m.srcs i).isDeclared et = true := by
+    intro h; rcases h with h | h; exact hb f i et snap h; exact h
+  apply fin
+  generalize hm' : step β m = m' at hstep hy hexec
+  cases hstep with
+  | deliverAbort k fr st hp hs =>
+    left
+    simp only [abort] at hy
+    cases hcur : fr.cur with
+    | none => simpa [hcur] using hy
+    | some c => obtain ⟨e, acts, r⟩ := c; simpa [hcur] using hy
+  | deliver r g hp => left; simpa using hy
+  | idle => exact .inl hy
+  | topExec a as m' hp hs he => exact hexec he rfl rfl
+  | hExec fr st e a g acts r m' hp hs hc he => exact hexec he rfl rfl
+  | hAbort fr st e k hp hs hc => left; simpa [abort, hc] using hy
+  | hRet fr st e r hp hs hc hr =>
+    left
+    by_cases hh : stopsAt r fr.halt = true
+    · simpa [hret, hh, finish] using hy
+    · simpa [hret, hh] using hy
+  | fFinish fr st hp hs hc hr => left; simpa [finish] using hy
+  | fInvoke fr st e rest live acts ret h srcs' hp hs hc hr hsrc hlive hdead => left; simpa using hy
 
 end Pox.Revent
